@@ -29,6 +29,9 @@ pub enum Layout {
     RestartWal,
     /// clean shutdown and restart: rows come back from segments
     RestartSeg,
+    /// first half flushed row by row and compacted twice (L1 emptied into L2), the rest flushed row
+    /// by row and compacted once more: a level-1 label is handed out a second time in one process
+    LabelReuse,
 }
 
 pub const ALL_LAYOUTS: [Layout; 10] = [
@@ -87,6 +90,13 @@ pub fn build(sc: &Scenario) -> (Vec<LifeSpec>, Vec<(usize, usize)>) {
                 }
             }
             Layout::FlushEach | Layout::Compact1 | Layout::Compact2 => lives[li].push(flush()),
+            Layout::LabelReuse => {
+                lives[li].push(flush());
+                if i + 1 == (n + 1) / 2 {
+                    lives[li].push(JOp::CompactAll);
+                    lives[li].push(JOp::CompactAll);
+                }
+            }
             Layout::FlushEvery2 => {
                 if i % 2 == 1 || last {
                     lives[li].push(flush());
@@ -111,7 +121,7 @@ pub fn build(sc: &Scenario) -> (Vec<LifeSpec>, Vec<(usize, usize)>) {
         }
     }
     match sc.layout {
-        Layout::Compact1 => lives[0].push(JOp::CompactAll),
+        Layout::Compact1 | Layout::LabelReuse => lives[0].push(JOp::CompactAll),
         Layout::Compact2 => {
             lives[0].push(JOp::CompactAll);
             lives[0].push(JOp::CompactAll);
